@@ -459,14 +459,43 @@ func inlineCondTemps(info *types.Info, f *ast.File) {
 		}
 		return out
 	}
+	// the same for `xs := f(…)` directly in front of `for … := range xs`, xs having no other use
+	rewriteRange := func(list []ast.Stmt) []ast.Stmt {
+		var out []ast.Stmt
+		for i := 0; i < len(list); i++ {
+			out = append(out, list[i])
+			if i+1 >= len(list) {
+				continue
+			}
+			as, ok := list[i].(*ast.AssignStmt)
+			if !ok || as.Tok != token.DEFINE || len(as.Lhs) != 1 || len(as.Rhs) != 1 {
+				continue
+			}
+			id, ok := as.Lhs[0].(*ast.Ident)
+			if !ok {
+				continue
+			}
+			o := info.Defs[id]
+			call, isCall := as.Rhs[0].(*ast.CallExpr)
+			rs, isRange := list[i+1].(*ast.RangeStmt)
+			if o == nil || !isCall || !isRange || uses[o] != 1 {
+				continue
+			}
+			if x, isID := ast.Unparen(rs.X).(*ast.Ident); isID && info.Uses[x] == o {
+				rs.X = call
+				out = out[:len(out)-1]
+			}
+		}
+		return out
+	}
 	ast.Inspect(f, func(n ast.Node) bool {
 		switch x := n.(type) {
 		case *ast.BlockStmt:
-			x.List = rewrite(x.List)
+			x.List = rewriteRange(rewrite(x.List))
 		case *ast.CaseClause:
-			x.Body = rewrite(x.Body)
+			x.Body = rewriteRange(rewrite(x.Body))
 		case *ast.CommClause:
-			x.Body = rewrite(x.Body)
+			x.Body = rewriteRange(rewrite(x.Body))
 		}
 		return true
 	})
